@@ -30,9 +30,13 @@ pub struct Fail {
 
 /// Triaged defect signatures: one root cause = one fingerprint, whatever sub-engine / option point /
 /// surrounding schema it shows up in. Each rule is deliberately narrow (type present + exact symptom).
-pub fn known_rule(kind: &str, detail: &str, schema: &Schema, o: &Opts) -> Option<String> {
+pub fn known_rule(kind: &str, family: &str, detail: &str, schema: &Schema, o: &Opts, windowed: bool) -> Option<String> {
     let has_ree = schema.fields().iter().any(|f| contains_type(f.data_type(), &|d| matches!(d, DataType::RunEndEncoded(..))));
-    let top_union = schema.fields().iter().any(|f| matches!(f.data_type(), DataType::Union(..)));
+    let top_union = schema.fields().iter().any(|f| contains_type(f.data_type(), &|d| matches!(d, DataType::Union(..))));
+    if kind == "flight-encode-err" && top_union && detail.contains("Non-nullable field of") && detail.contains("cannot contain nulls") {
+        // same root cause as the schema difference: the hydrating cast targets the rebuilt (non-nullable) nested union field
+        return Some("c04:flight-encoder:union-field:nullable-flag-cleared".to_string());
+    }
     if kind == "flight-encode-err" && detail.contains("no dict id for field") {
         // utils::batches_to_flight_data encodes the schema with a throw-away DictionaryTracker
         return Some("c04:flight-utils:batches_to_flight_data:dictionary-column-rejected:no-dict-id".to_string());
@@ -42,6 +46,22 @@ pub fn known_rule(kind: &str, detail: &str, schema: &Schema, o: &Opts) -> Option
     }
     if kind == "flight-schema-differs" && top_union && detail.contains("@union-field-metadata-dropped") {
         return Some("c04:flight-encoder:union-field:field-metadata-dropped".to_string());
+    }
+    // union somewhere below a List / LargeList / Map
+    let union_below_list = schema.fields().iter().any(|f| {
+        contains_type(f.data_type(), &|d| match d {
+            DataType::List(c) | DataType::LargeList(c) | DataType::Map(c, _) => contains_type(c.data_type(), &|x| matches!(x, DataType::Union(..))),
+            _ => false,
+        })
+    });
+    if union_below_list && windowed {
+        // write_array_data slices the list's child ArrayData but its Union arm ignores that offset:
+        // dense -> other rows' values come back, sparse -> children longer than the union
+        let dense_symptom = kind.ends_with("rows-differ") && family.contains("union");
+        let sparse_symptom = kind.ends_with("read-err") && detail.contains("Sparse union child arrays must be equal in length to the length of the union");
+        if dense_symptom || sparse_symptom {
+            return Some("c04:union-below-list:writer-ignores-child-offset".to_string());
+        }
     }
     if has_ree && o.ver != 0 && (kind.ends_with("read-err") || kind.ends_with("read-panic")) {
         // writer emits a validity buffer for run-end encoded arrays under metadata V4, reader never reads one
@@ -58,6 +78,9 @@ pub fn known_rule(kind: &str, detail: &str, schema: &Schema, o: &Opts) -> Option
 pub struct Rep<'a> {
     pub schema: &'a Schema,
     pub opts: &'a Opts,
+    /// the written arrays (or their children) are windows that do not start at position 0
+    /// (any non-compact layout, or a Flight encoder that splits batches)
+    pub windowed: bool,
     pub layout_class: String,
     pub opt_class: String,
     /// optional reducer: given (kind, family) of a failure group, tries simpler configurations and
@@ -75,7 +98,7 @@ pub fn report(st: &mut Stats, order: u64, rep: &Rep, fails: &[Fail], pairs: &[(S
     let writers: BTreeSet<&String> = pairs.iter().map(|p| &p.0).collect();
     for ((kind, fam), fs) in groups {
         let msg = format!("{} -> {}: {}", fs[0].writer, fs[0].reader.clone().unwrap_or("-".into()), fs[0].detail);
-        if let Some(fp) = known_rule(&kind, &fs[0].detail, rep.schema, rep.opts) {
+        if let Some(fp) = known_rule(&kind, &fam, &fs[0].detail, rep.schema, rep.opts, rep.windowed) {
             st.violate(order, fp, msg, case);
             continue;
         }
@@ -323,7 +346,7 @@ fn single_case(st: &mut Stats, order: u64, sub: &str, full: bool, ty: usize, dt:
             let lc = if lay != Layout::Compact && same(Layout::Compact, &oc) { Layout::Compact } else { lay };
             (fam.to_string(), lc.class().to_string(), oc.class())
         };
-        let rep = Rep { schema: &schema, opts: o, layout_class: lay.class().into(), opt_class: o.class(), reduce: Some(&reduce) };
+        let rep = Rep { schema: &schema, opts: o, windowed: lay != Layout::Compact, layout_class: lay.class().into(), opt_class: o.class(), reduce: Some(&reduce) };
         report(st, order, &rep, &fails, &pairs, &case);
     }
 }
@@ -536,7 +559,7 @@ fn multi_case(st: &mut Stats, order: u64, full: bool, tys: &[usize], nullable: b
             }
             (format!("multi[{fam}]"), lay.class().to_string(), oc.clone())
         };
-        let rep = Rep { schema: &inp.schema, opts: o, layout_class: lay.class().into(), opt_class: oc.clone(), reduce: Some(&reduce) };
+        let rep = Rep { schema: &inp.schema, opts: o, windowed: lay != Layout::Compact, layout_class: lay.class().into(), opt_class: oc.clone(), reduce: Some(&reduce) };
         report(st, order, &rep, &fails, &pairs, &case);
     }
 }
@@ -647,30 +670,43 @@ pub fn flight_expected_schema(schema: &Schema, resend: bool) -> Schema {
     Schema::new_with_metadata(fields, schema.metadata().clone())
 }
 
-/// Tags the case "the schemas differ only in the nullable flag / the metadata of top-level union fields".
+/// Rebuild a field with every union-typed field (at any depth) made non-nullable (`flags`) and/or stripped of
+/// its metadata (`md`).
+fn strip_union_field(f: &Field, flags: bool, md: bool) -> Field {
+    use DataType::*;
+    let sf = |x: &arrow_schema::FieldRef| Arc::new(strip_union_field(x, flags, md));
+    let dt = match f.data_type() {
+        List(c) => List(sf(c)),
+        LargeList(c) => LargeList(sf(c)),
+        ListView(c) => ListView(sf(c)),
+        LargeListView(c) => LargeListView(sf(c)),
+        FixedSizeList(c, n) => FixedSizeList(sf(c), *n),
+        Map(c, s) => Map(sf(c), *s),
+        Struct(fs) => Struct(fs.iter().map(sf).collect()),
+        RunEndEncoded(r, v) => RunEndEncoded(r.clone(), sf(v)),
+        Union(fs, m) => Union(arrow_schema::UnionFields::try_new(fs.iter().map(|(i, _)| i), fs.iter().map(|(_, x)| strip_union_field(x, flags, md))).unwrap(), *m),
+        o => o.clone(),
+    };
+    let is_union = matches!(f.data_type(), Union(..));
+    let mut out = f.clone().with_data_type(dt);
+    if is_union && flags {
+        out = out.with_nullable(false);
+    }
+    if is_union && md {
+        out = out.with_metadata(HashMap::new());
+    }
+    out
+}
+/// Tags the case "the schemas differ only in the nullable flag / the metadata of union-typed fields".
 fn union_field_tags(exp: &Schema, got: &Schema) -> String {
-    if exp.fields().len() != got.fields().len() {
+    let strip = |s: &Schema, flags: bool, md: bool| Schema::new_with_metadata(s.fields().iter().map(|f| strip_union_field(f, flags, md)).collect::<Vec<_>>(), s.metadata().clone());
+    if exp == got || strip(exp, true, true) != strip(got, true, true) {
         return String::new();
     }
-    let (mut nullable, mut md) = (false, false);
-    let mut fixed = vec![];
-    for (e, g) in exp.fields().iter().zip(got.fields().iter()) {
-        if matches!(e.data_type(), DataType::Union(..)) {
-            if e.is_nullable() && !g.is_nullable() {
-                nullable = true;
-            }
-            if !e.metadata().is_empty() && g.metadata().is_empty() {
-                md = true;
-            }
-            fixed.push(g.as_ref().clone().with_nullable(e.is_nullable()).with_metadata(e.metadata().clone()));
-        } else {
-            fixed.push(g.as_ref().clone());
-        }
+    if strip(exp, false, true) == strip(got, false, true) {
+        return " @union-field-metadata-dropped".to_string();
     }
-    if Schema::new_with_metadata(fixed, got.metadata().clone()) != *exp {
-        return String::new();
-    }
-    format!("{}{}", if nullable { " @union-field-nullable-cleared" } else { "" }, if md { " @union-field-metadata-dropped" } else { "" })
+    " @union-field-nullable-cleared".to_string()
 }
 
 /// Compare decoded Flight batches with the model. `split` = batches may have been split: rows are
@@ -874,7 +910,7 @@ fn flight_case(st: &mut Stats, order: u64, full: bool, ty: usize, dt: &DataType,
             let lc = if lay != Layout::Compact && same(Layout::Compact, &oc, &c2) { Layout::Compact } else { lay };
             (fam.to_string(), lc.class().to_string(), format!("{}:{}{}", oc.class(), c2.class(), if md { "+md" } else { "" }))
         };
-        let rep = Rep { schema: &out.schema, opts: o, layout_class: lay.class().into(), opt_class: format!("{}:{cc}", o.class()), reduce: Some(&reduce) };
+        let rep = Rep { schema: &out.schema, opts: o, windowed: lay != Layout::Compact || cfg.max_size.is_some(), layout_class: lay.class().into(), opt_class: format!("{}:{cc}", o.class()), reduce: Some(&reduce) };
         report(st, order, &rep, &out.fails, &out.pairs, &case);
     }
 }
